@@ -2,6 +2,9 @@ ENGINES = [
  {"name": "procsim (E1)", "path": "/verif/shim/simos_preload.c + /verif/sim/src/exec.rs",
   "serves_properties": ["C12", "C16", "C17", "C18", "C19"],
   "kind_free_text": "the real hdwallet binary, one OS process per simulated command, against a simulated libc boundary (LD_PRELOAD): getentropy, read(0), read(input files), write(1) execute an explicit seeded plan; no source hook"},
+ {"name": "procsim-mt (E3)", "path": "/verif/shim/simos_preload.c (second half) + /verif/sim/src/exec.rs",
+  "serves_properties": ["C12", "C17", "C18"],
+  "kind_free_text": "the real hdwallet binary with its real std threads under a scheduler inside the LD_PRELOAD shim: one token holder runs at a time, the token moves at pthread_create/join, futex wait/wake (implemented in the shim), sched_yield, sleeps, getentropy; seeded or traced choices, simulated monotonic clock, deadlock detection; no source hook. Used for one in five/six threaded scenarios and as the fallback when threads are created outside the E2 seam"},
  {"name": "threadsim (E2)", "path": "/verif/sim/src/bin/threadsim",
   "serves_properties": ["C12", "C17", "C18"],
   "kind_free_text": "cmd::new::run compiled from /repo's working tree under shuttle with our own seeded recording scheduler; getentropy replaced at link time by the simulated entropy device (a scheduling point); one OS process per simulated process, which really exits when the command's main task returns"},
